@@ -13,7 +13,7 @@ T = {
  "C13-r8m1": ("Stack.ReverseTop answers n <= 1 before testing n against the stack depth", "REVERSEN with n == 1 on an empty stack halts instead of faulting", "pkg/vm", "TestC13Demo_ReverseN", "missed", "range-before-shortcut added after"),
  "C13-r8m2": ("PICKITEM on a byte array accepts index == len", "an index equal to the length: a Go runtime panic instead of the catchable VM exception", "pkg/vm", "TestC13Demo_PickItem", "missed", "index-bound-exclusive added after"),
  "C15-r8m1": ("Oracle.RequestInternal records the hash of the executing transaction as OriginalTxID, getOriginalTxID removed", "a request made from an oracle callback: the chained response carries the oracle transaction's signers instead of the original ones", "pkg/core/native/native_test", "TestC15Demo_OracleChainedRequestKeepsOriginalSigners", "missed", "original-tx-through-response added after"),
- "C15-r8m2": ("checkScope consults AllowedContracts without testing the CustomContracts bit", "a signer with leftover AllowedContracts and another scope", "pkg/core/interop/runtime", "TestC15Demo_AllowedContractsNeedCustomContractsScope", "DETECTED cond-context", "rule existed before the seed was looked at"),
+ "C15-r8m2": ("checkScope consults AllowedContracts without testing the CustomContracts bit", "a signer with leftover AllowedContracts and another scope", "pkg/core/interop/runtime", "TestC15Demo_AllowedContractsNeedCustomContractsScope", "DETECTED cond-context", "cond-context existed and failed the check, but as a lost anchor (the if it is about was gone); scope-field-under-bit added to report the change as what it is"),
  "C19-r8m1": ("NEO.InitializeCache decides whether the committee is to be recomputed by ShouldUpdateCommitteeAt(blockHeight) instead of blockHeight+1", "a restart at an epoch boundary: the restarted validator works with another validator set than the others", "pkg/consensus", "TestC19Demo_M1", "missed", "epoch-boundary-agrees added after"),
  "C19-r8m2": ("extensibleVerifyMaxGAS lowered to 0.02 GAS", "the committee raising the execution fee factor: consensus payloads no longer verify and the network stops", "pkg/consensus", "TestC19Demo_M2", "missed", "verify-budget-covers-signature added after"),
  "C20-r8m1": ("statesync.AddBlock stores the transactions of a block under s.blockHeight instead of block.Index", "any synchronised block with transactions: Ledger.getTransactionHeight answers one less than on other nodes", "pkg/core/statesync", "TestC20Demo_", "missed", "tx-stored-at-block-index added after"),
